@@ -26,8 +26,8 @@ theorem cfg2_cut {g : E2E.Cfg} (ok : g.OK) (hr : g.p.role = 1) {n : Nat} (h8 : 8
     (hn : n < g.term.ser.length) : Cfg2 (cutCfg g n) := by
   cases ok.shape with
   | authorizer hr2 hX hU hOt hrv hs hfu0 => omega
-  | filter hr3 hb1 hb2 hf hf2 hp hp2 hX2 hX hU hOt hrv hs hfu0 => omega
-  | responder hr1 hb hf hp hX2 hX hU hOt hrv hs hfu =>
+  | filterU hr3 hb1 hb2 hf hf2 hp hp2 hX2 hX hU hOt hrv hs hfu0 => omega
+  | responderU hr1 hb hf hp hX2 hX hU hOt hrv hs hfu =>
     have hid := (pid_lt ok).2
     have hK := kok ok hb hf hp [] (fun r hr => by cases hr) (fun r hr => by cases hr) (by rw [hX2]; rfl)
       (by rw [hX, hX2, List.append_nil])
